@@ -3,7 +3,7 @@ import itertools
 from .. import common as C, structs as S, valgen as V, refcodec as R
 
 LEAN_MODULES = ["ZvtVerif.Properties.C04"]
-ASSUMPTIONS = ["tokio's read_exact; the in-memory reader returns Pending (and wakes) between chunks",
+ASSUMPTIONS = ["tokio's read_exact; the in-memory reader returns Pending (and wakes) between chunks; `read@D`: D virtual seconds pass between two chunks (paused clock)",
                "the Lean model carries chunk-independence and framing; the executor is exercised by the harness only"]
 
 
@@ -69,6 +69,12 @@ def run(ctx, out):
                 ops.append(f"read {enum['name']} {cut(s, cuts)}")
                 want.append(" ; ".join(exp))
                 kinds.append("chunking")
+            # the same stream with PAUSES between the chunks (6 and 61 virtual seconds): cuts inside headers, lengths and bodies
+            for pause in (6, 61):
+                for cuts in chunkings(len(s), rng, 12 if len(s) > 7 else 32)[:12 if not thorough else 40]:
+                    ops.append(f"read@{pause} {enum['name']} {cut(s, cuts)}")
+                    want.append(" ; ".join(exp))
+                    kinds.append("chunking-with-pauses")
     # (2) longer streams incl. packets that do not parse (foreign control field), random chunkings
     for _ in range(300 if thorough else 60):
         pk = []
@@ -108,7 +114,7 @@ def run(ctx, out):
                 ops.append(f"read {enum['name']} {cut(t, cuts)}"); want.append(" ; ".join(e2)); kinds.append("ext-header-eof")
     # (3) header agreement: body lengths on both sides of the 254/255 switch and up to 65535
     pl = "sequences::PrintSystemConfigurationResponse"
-    lens = list(range(0, 600)) + [65535, 65534, 32768, 4096, 1000]
+    lens = list(range(0, 600)) + list(range(65526, 65536)) + [32767, 32768, 1000, 1023, 1024, 4095, 4096, 4097, 8192, 16384, 61440]
     if thorough:
         lens = list(range(0, 65536, 1))
     for n in lens:
@@ -133,6 +139,6 @@ def run(ctx, out):
             out.oracle_failures.append({"op": o[:300], "observed": "…" + r[max(0, i - 60):i + 120], "expected": "…" + w[max(0, i - 60):i + 120], "key": o[:120],
                                         "what": "a chunked stream of packets is not returned packet by packet with exact consumption / a truncated packet is not an error" if kd != "header" else "writer's length header and reader's interpretation disagree"})
     out.rule = ("streams of 1-3 canonical reply packets: every end-of-stream position x every chunking (all 2^(L-1) for short prefixes, sampled above) with a Pending between chunks; "
-                "60 longer streams with unparsable packets and dangling bytes x 8 chunkings; header agreement for body lengths 0..599, 1000, 4096, 32768, 65534, 65535 (thorough: all 0..65535). "
+                "60 longer streams with unparsable packets and dangling bytes x 8 chunkings; header agreement for body lengths 0..599, powers of two and page multiples, 65526..65535 (thorough: all 0..65535); chunkings also with pauses of 6 s and 61 s between chunks. "
                 "Expected outcomes (packet values, bytes consumed per read, eof position) computed independently; implementation = model = expectation. non-trivial = distinct (stream, chunking)")
     out.samples = [ops[3][:200], {"op": ops[-1][:60] + "…", "impl": impl[-1][-60:]}]
